@@ -319,17 +319,19 @@ theorem never_disturbs_another_pool (pi li : Nat) (f : Listener.S → Listener.S
       · rename_i pool hpool
         split
         · rfl
-        · rename_i l hl
-          exact absurd ⟨pool, hpool, by
-            have := List.getElem?_eq_some_iff.mp hl
-            exact this.1⟩ hli
+        · split
+          · rfl
+          · rename_i l hl
+            exact absurd ⟨pool, hpool, by
+              have := List.getElem?_eq_some_iff.mp hl
+              exact this.1⟩ hli
 
 /-- ... at every moment of every history of a freshly configured daemon (any pools with distinct section names, any
     numbers of listeners, names shared or not) -/
 theorem never_disturbs_another_pool_ever (h : Bytes → HRes) (ps : List Pool.PoolSt) (hf : Pool.FreshPools ps)
     (ops : List Pool.Op) (pi li : Nat) (f : Listener.S → Listener.S) (j : Nat) (hj : j ≠ pi) :
-    (Pool.onListener pi li f (Pool.exec h { pools := Pool.assignIds 0 ps } ops)).pools[j]? =
-      (Pool.exec h { pools := Pool.assignIds 0 ps } ops).pools[j]? :=
+    (Pool.onListener pi li f (Pool.exec h (Pool.boot (Pool.assignIds 0 ps)) ops)).pools[j]? =
+      (Pool.exec h (Pool.boot (Pool.assignIds 0 ps)) ops).pools[j]? :=
   never_disturbs_another_pool pi li f _ (Pool.j_exec h 0 ops _ (Pool.j_fresh h ps hf 0)).st j hj
 
 /-- two pools whose listeners have the same name `l0`: listener 0.0 answers FAIL for the event it holds; pool 1 (not
@@ -338,7 +340,7 @@ example :
     let ps : List Pool.PoolSt := [{ name := "a", bufSize := 3, subs := [.TICK_5], procs := [Listener.initial], names := ["l0"] },
                                   { name := "b", bufSize := 3, subs := [.TICK_60], procs := [Listener.initial], names := ["l0"] }]
     let ready : Bytes := [82, 69, 65, 68, 89, 10]
-    let w := Pool.exec strictHandler { pools := Pool.withDir (Pool.assignIds 0 ps) }
+    let w := Pool.exec strictHandler (Pool.boot (Pool.withDir (Pool.assignIds 0 ps)))
       [.spawn 0 0 7 [], .pstate 0 0 .running, .spawn 1 0 8 [], .pstate 1 0 .running, .read 0 0 ready, .read 1 0 ready,
        .notify .TICK_5 [], .transition 0]
     let w' := Pool.step strictHandler w (.read 0 0 [82, 69, 83, 85, 76, 84, 32, 52, 10, 70, 65, 73, 76])
